@@ -8,5 +8,5 @@ class ParentRealpathFs:
         self.fs = fs
 
     def parent_realpath(self, path):
-        parent = os.path.dirname(path)
+        parent = os.path.dirname(os.path.normpath(path))
         return self.fs.realpath(parent)
